@@ -27,7 +27,7 @@ def gen_tree(rnd, root):
             if k < .25 and depth < 2:
                 os.mkdir(p)
                 if n != 'empty': fill(p, depth + 1)
-            elif k < .4: os.symlink(rnd.choice(['a', '../b.txt', '/etc/hostname', 'nowhere']), p)
+            elif k < .4: os.symlink(rnd.choice(['a', '../b.txt', '/etc/hostname', 'nowhere', 'sub', '.', '../sibling_dir', '../../sibling_dir', '/tmp']), p)
             elif k < .5 and files: os.link(rnd.choice(files), p)
             else:
                 with open(p, 'wb') as f: f.write(rnd.choice([b'', b'x', b'hello\n', os.urandom(300)]))
@@ -41,6 +41,11 @@ def mk_helper():
 def fidelity_case(rnd, base):
     from bob.utils import hashDirectory
     src = os.path.join(base, 'src'); gen_tree(rnd, src)
+    # links may leave the tree: what they point to exists where the package was built and not where it is extracted
+    sib = os.path.join(base, 'sibling_dir'); os.makedirs(sib); open(os.path.join(sib, 'f'), 'w').write('outside')
+    os.symlink('../sibling_dir', os.path.join(src, 'link-out')) if not os.path.lexists(os.path.join(src, 'link-out')) and rnd.random() < .5 else None
+    h_with = hashDirectory(src); shutil.rmtree(sib); h_without = hashDirectory(src); os.makedirs(sib)
+    if h_with != h_without: return {'kind': 'directory-hash-depends-on-what-a-symlink-points-to-outside-the-tree'}
     audit = os.path.join(base, 'audit.json.gz')
     from bob.utils import hashDirectory as _hd
     with gzip.open(audit, 'wb') as f: f.write(('{"artifact": {"result-hash": "%s"}, "references": []}' % _hd(src).hex()).encode())
